@@ -121,6 +121,7 @@ type v14Exch struct {
 	CReadChunk  int
 	Seed        uint64
 	NearLimit   string // "", "req", "resp"
+	Refused     string // "trailers": the request trailers exceed the server's SETTINGS_MAX_HEADER_LIST_SIZE; the Transport has to refuse the request, nothing about it is compared
 	ReqWireSize int64
 	OpCap       int
 	handlerBody bool // the response may carry a body (status allows it and the method is not HEAD)
@@ -407,6 +408,12 @@ func v14GenConf(rng *rand.Rand, mode, flavor string) *v14Conf {
 		cf.SrvMaxHeaderBytes, cf.CliMaxHeaderList = 1<<20, 1<<20
 		cf.SrvMaxStreams = 0
 		cf.Waves = []int{1, 8, 8, 8, 8, 8, 8, 8, 8}
+	case "over-limit-trailers":
+		// one request of the first wave is refused by the Transport itself (its trailers do not
+		// fit the server's limit); what matters is that the exchanges after it are still exact
+		cf.SrvMaxHeaderBytes = vsrvPick(rng, 4096, 16384)
+		cf.SrvMaxStreams = 0
+		cf.Waves = []int{2 + rng.IntN(2), 2 + rng.IntN(3), 1 + rng.IntN(3)}
 	case "near-limit":
 		cf.SrvMaxHeaderBytes = vsrvPick(rng, 4096, 16384, 65536, 65536, 1<<20)
 		cf.CliMaxHeaderList = vsrvPick[uint32](rng, 16384, 65536, 65536, 1<<20)
@@ -821,6 +828,24 @@ func v14GenExch(rng *rand.Rand, cf *v14Conf, idx, wave int, flavor string, maxBo
 	}
 	e.ReqWireSize = v14ReqWireSize(e, cf)
 	return e
+}
+
+// v14OverLimitTrailers turns exchange e into a small upload whose declared trailers are larger
+// than the server's SETTINGS_MAX_HEADER_LIST_SIZE: one field above the limit plus a few small
+// ones (which an HPACK encoder would index).
+func v14OverLimitTrailers(rng *rand.Rand, e *v14Exch, cf *v14Conf) {
+	e.Method = "POST"
+	e.Expect100 = false
+	e.ReqBodyKind, e.ReqBody, e.ReqChunk = 3, v14GenBody(rng, int64(1+rng.IntN(2000))), 500
+	e.ReqTrLate = rng.IntN(2) == 0
+	e.ReqTrailer = nil
+	for i, n := 0, 1+rng.IntN(4); i < n; i++ {
+		e.ReqTrailer = append(e.ReqTrailer, v14Hdr{K: fmt.Sprintf("X-Small-Trailer-%d", i), V: []string{v14Value(rng, 1+rng.IntN(30))}})
+	}
+	e.ReqTrailer = append(e.ReqTrailer, v14Hdr{K: "X-Big-Trailer", V: []string{strings.Repeat("t", cf.SrvMaxHeaderBytes+400+rng.IntN(2000))}})
+	rng.Shuffle(len(e.ReqTrailer), func(i, j int) { e.ReqTrailer[i], e.ReqTrailer[j] = e.ReqTrailer[j], e.ReqTrailer[i] })
+	e.Refused = "trailers"
+	e.ReqWireSize = v14ReqWireSize(e, cf)
 }
 
 // v14Boundary turns exchange e of a "frame-boundary" session into one of a sweep: everything that
